@@ -16,7 +16,7 @@ import vlib
 from vlib import coq_list
 
 _H = 'From Coq Require Import List String NArith.\nFrom Teleport Require Import Base.Bytes %s.\nImport ListNotations.\nOpen Scope string_scope.\nOpen Scope N_scope.\n'
-HEADER_INV = _H % 'Gen.HazardsGen Model.MapLoops Model.DeterminismCheck'   # depends on the regenerated inventory
+HEADER_INV = _H % 'Gen.HazardsGen Model.MapLoops Model.MapLoopsIR Model.DeterminismCheck'   # depends on the regenerated inventory
 HEADER_REPLAY = _H % 'Model.ReplayCheck'                                    # does not
 HEADER_ML = _H % 'Model.MapLoops Model.MapLoopsCheck'
 
@@ -41,24 +41,34 @@ def coq_strings(s):
 
 def inventory(run):
     qs = [('Q_unmatched', 'unmatched_sites'), ('Q_unallowed', 'unallowed_hazards'),
-          ('Q_counts', '[sites_found; sites_matched; sites_proved; sites_argued; stale_table_rows; hazards_found; '
+          ('Q_counts', '([sites_found; sites_matched; sites_proved; sites_argued; stale_table_rows; hazards_found; '
                        'hazard_constructs; hazards_allowed; N.of_nat (List.length finding_groups); typecheck_errors; '
-                       'files_scanned; range_statements]'),
-          ('Q_findings', 'finding_groups')]
+                       'files_scanned; range_statements] ++ sites_by_shape)%list'),
+          ('Q_findings', 'finding_groups'),
+          ('Q_eth', '(eth_seal_config_ok, eth_verify_config, eth_verify_seal_args)'),
+          ('Q_verdicts', 'map (fun s => (s_file s, s_func s, match site_verdict s with VProved ShStore => "proved: store shape" '
+                         '| VProved ShSearch => "proved: search shape" | VProved (ShCollectSort _ _) => "proved: collect-then-sort shape" '
+                         '| VArgued => "argued (not proved)" | VOpen _ => "OPEN" end)) map_range_sites_ir')]
     res = vlib.coq_eval_lists(run.work, 'inventory.v', HEADER_INV, '', qs)
     if res['_rc'] != 0 or 'Q_counts' not in res:
         return None, res['_out'][-3000:]
     nums = [int(x) for x in re.findall(r'\d+', res['Q_counts'])]
     names = ['map_range_sites_found', 'map_range_sites_matched', 'map_range_sites_proved', 'map_range_sites_argued',
              'stale_table_rows', 'hazard_groups_found', 'hazard_constructs', 'hazard_groups_allowed',
-             'hazard_groups_that_are_findings', 'typecheck_errors', 'files_scanned', 'range_statements_seen']
+             'hazard_groups_that_are_findings', 'typecheck_errors', 'files_scanned', 'range_statements_seen',
+             'proved_store_shape', 'proved_search_shape', 'proved_collect_sort_shape']
     inv = dict(zip(names, nums))
     um = coq_strings(res.get('Q_unmatched'))
-    inv['unmatched_sites'] = [dict(file=um[i], function=um[i + 1], hash=um[i + 2], function_hash=um[i + 3]) for i in range(0, len(um) - 3, 4)]
+    inv['unmatched_sites'] = [dict(file=um[i], function=um[i + 1], hash=um[i + 2], why=um[i + 3]) for i in range(0, len(um) - 3, 4)]
+    vd = coq_strings(res.get('Q_verdicts'))
+    inv['site_verdicts'] = [dict(file=vd[i], function=vd[i + 1], verdict=vd[i + 2]) for i in range(0, len(vd) - 2, 3)]
     ua = res.get('Q_unallowed') or ''
     inv['unallowed_hazards'] = [dict(file=f, function=g, constructs=int(c)) for f, g, c in
                                 re.findall(r'\("((?:[^"]|"")*)",\s*"((?:[^"]|"")*)",\s*(\d+)\)', ua)]
     inv['finding_reasons'] = dict(Counter(coq_strings(res.get('Q_findings'))))
+    eth = res.get('Q_eth') or ''
+    inv['eth_seal_config_ok'] = bool(re.search(r'\(\s*true\s*,', eth))
+    inv['eth_seal_config'] = ' '.join(eth.split())[:400]
     return inv, ''
 
 
@@ -69,16 +79,13 @@ def site_details(inv):
         txt = open(p, encoding='utf-8', errors='replace').read()
     except OSError:
         return
-    try:
-        table = open(os.path.join(vlib.THEORIES, 'Model', 'MapLoops.v'), encoding='utf-8', errors='replace').read()
-    except OSError:
-        table = ''
     for s in inv['unmatched_sites']:
-        s['why'] = ('the enclosing function changed around an unchanged loop (what is done with the loop result is part of the obligation)'
-                    if '"%s"' % s['hash'] in table else 'new or changed range-over-map statement')
         m = re.search(r'"%s", "[0-9a-f]*",\s*\n\s*"((?:[^"]|"")*)"' % re.escape(s['hash']), txt)
         if m:
             s['statement'] = m.group(1).replace('""', '"')[:1500]
+        m = re.search(r's_hash := "%s";.*?s_body := (.*?);\n\s*s_after := (.*?);\n\s*s_text' % re.escape(s['hash']), txt, flags=re.S)
+        if m:
+            s['loop_language_body'], s['loop_language_after'] = m.group(1)[:1500], m.group(2)[:600]
     for h in inv['unallowed_hazards']:
         rows = re.findall(r'\("%s", "%s", "([^"]*)", "((?:[^"]|"")*)", (\d+)%%N\)' % (re.escape(h['file']), re.escape(h['function'])), txt)
         h['constructs_detail'] = ['%s: %s x%s' % r for r in rows]
@@ -111,9 +118,12 @@ def generate(run, seed, n, steps, outdir, eth_headers=1, workers=12):
 
 
 CONFIGS = {
-    'A': dict(GOMAXPROCS='1', TMPDIR=NO_TMP),          # one core, no usable temporary directory
-    'B': dict(GOMAXPROCS='8'),                          # eight cores, private temporary directory (set below)
-    'C': dict(GOMAXPROCS='3'),                          # like B with another core count (used to look behind a known finding)
+    # one core, no usable temporary directory, no home, Tokyo time, C locale
+    'A': dict(GOMAXPROCS='1', TMPDIR=NO_TMP, HOME='/nonexistent/c14-no-home', TZ='Asia/Tokyo', LANG='C', LC_ALL='C', USER='nobody'),
+    # eight cores, private temporary directory (set below), New York time, another locale
+    'B': dict(GOMAXPROCS='8', TZ='America/New_York', LANG='de_DE.UTF-8', USER='c14'),
+    # like B with another core count (used to look behind a known finding)
+    'C': dict(GOMAXPROCS='3', TZ='UTC'),
 }
 
 
@@ -294,11 +304,11 @@ def check(run):
         run.violation(dict(kind='harness-build-failed', log=out[-3000:]), no_input=True)
         return run.finish()
 
-    static_open = bool(inv['unmatched_sites'] or inv['unallowed_hazards'] or inv['typecheck_errors'])
-    n = run.budget(15, 150)
+    static_open = bool(inv['unmatched_sites'] or inv['unallowed_hazards'] or inv['typecheck_errors'] or not inv.get('eth_seal_config_ok', True))
+    n = run.budget(15, 420)
     steps = run.budget(10, 14)
     if static_open:   # an open obligation: search harder (more histories, the same comparison)
-        n = run.budget(45, 300)
+        n = run.budget(45, 600)
     hdir = os.path.join(run.work, 'hist')
     lap('harness_build')
     index, log = generate(run, run.seed, n, steps, hdir, eth_headers=run.budget(1, 3))
@@ -351,8 +361,9 @@ def check(run):
                 transactions=sum(tags[t] for t in tags if not t.startswith('oob:')), tx_outcomes=dict(outcomes.most_common(12)),
                 operations_by_kind=dict(tags), packets=dict(recv_ok=sum(e['stats'].get('recv_ok', 0) for e in index) // 2,
                                                             acknowledged=sum(e['stats'].get('ack_ok', 0) for e in index) // 2),
-                replicas_per_history='2 fresh applications in 2 separate processes (A: GOMAXPROCS=1, TMPDIR unusable; B: GOMAXPROCS=8, '
-                                     'private TMPDIR) + the generator process itself as third replica',
+                replicas_per_history='2 fresh applications in 2 separate processes (A: GOMAXPROCS=1, TMPDIR and HOME unusable, TZ=Asia/Tokyo, '
+                                     'LANG=C; B: GOMAXPROCS=8, private TMPDIR, TZ=America/New_York, LANG=de_DE.UTF-8) + the generator '
+                                     'process itself (inherited environment) as third replica',
                 histories_with_disagreement=len(per), disagreement_classes=dict(stats))
     run.coverage.update(dict(
         evaluations=evals + evals2 + ml.get('evaluations', 0), distinct_nontrivial=len(nontrivial),
@@ -360,14 +371,18 @@ def check(run):
              'one replica compared in Coq (10 fields incl. the application hash after every block), plus the map-loop model cases; '
              'distinct = distinct (transaction kind, outcome) pairs in the replayed histories',
         inventory={k: v for k, v in inv.items()}, distribution=dist, map_loop_correspondence=ml,
-        samples=[dict(id=index[0]['id'], ops=[dict(t=o['t'], tag=o.get('tag')) for o in hists[index[0]['id']]['ops'][:25]])] if index else []))
+        samples=([dict(id=index[0]['id'], ops=[dict(t=o['t'], tag=o.get('tag')) for o in hists[index[0]['id']]['ops'][:25]])] if index else []) +
+                [dict(map_loop_case=c) for c in (ml.get('samples') or [])] +
+                [dict(site=v) for v in (inv.get('site_verdicts') or [])[:3]]))
     run.coverage['trusted_base'] += [
         'translator tools/gotocoq/hazards (go/parser + go/types over the scope packages, export data of dependencies): decides what '
         'is a range over a map and what is a hazardous construct; scope = non-test .go under app/ x/ adapter/ syscontracts/ types/ ibc/ '
         '(minus client/cli, simulation, testing, *.pb.go); LIBRARY code (cosmos-sdk, ethermint, go-ethereum, tendermint) is NOT inventoried',
         'allow-list reasons in Model/DeterminismCheck.v are arguments, not proofs',
-        'hand transcription of each map-ranging loop into Model/MapLoops.v, tied to the source by (file, function, sha256 of the '
-        'normalised statement) and to the real functions by a differential run (maploops)',
+        'loop language: the translator emits every range-over-map statement as a term of Model/MapLoopsIR.v (statements by syntactic '
+        'form, expressions opaque with the variables read and functions called); the reading of run_loop as Go semantics, the list '
+        'of pure callees and the canonical sorters (validatorsAscending.Less, text-pinned one-liner) are trusted; the specific '
+        'transcriptions of Model/MapLoops.v (what the loops compute) are tied to the real functions by a differential run (maploops)',
         'replay engine: generator bounds what is exercised; out-of-band keeper calls of x/xibc/testing style (chain name in the packet '
         'contract, endpoint-owned ERC-20 deployment, optional client creation) are re-executed by the replayer, everything else is ABCI']
     run.assumptions += [
@@ -375,34 +390,41 @@ def check(run):
         'sort.Sort returns a sorted permutation (sort_spec); the address derivation is collision free on the module names (premise of blocked_addrs_order_independent); ABI event IDs are pairwise different (premise of handler_table_order_independent)',
         'consensus covers code, data, gas and the application hash (Tendermint 0.34); events are compared too because the property says so; log strings are not compared']
 
+    # ---- a real function that is not a function of its input: a concrete witness (reported before the static side) ------
+    for c in ml.get('unstable_samples') or []:
+        run.violation(dict(kind='order-dependent-function', what=c['unstable'], input=c,
+                           rerun=dict(mode='maploops', seed=run.seed, n=ml.get('n'), case_kind=c.get('kind')),
+                           explanation='the real function, called repeatedly in one process on the same input, gave different '
+                                       'results (Go map iteration order); ./check C14 --replay <this file> runs the generator again '
+                                       'with the recorded seed and reports the unstable cases'),
+                      name='replay_unstable.json')
+        break
     # ---- decisions on the static side --------------------------------------------------------------------
     if static_open and not any(v for v in run.violations):
         run.violation(dict(kind='open-determinism-obligation', unmatched_map_range_sites=inv['unmatched_sites'],
                            unallowed_hazards=inv['unallowed_hazards'], typecheck_errors=inv['typecheck_errors'],
-                           searched=dict(histories=len(index), replicas=3, disagreements=len(per)),
+                           eth_seal_config_ok=inv.get('eth_seal_config_ok'), eth_seal_config=inv.get('eth_seal_config'),
+                           searched=dict(histories=len(index), replicas=3, disagreements=len(per), map_loop_cases=ml.get('evaluations', 0)),
                            broken='Props/C14_inventory.v: map_range_sites_covered / other_hazards_allowed / inventory_typechecked',
-                           explanation='the tree contains a range over a map that matches no proved (or argued) row of '
-                                       'Model/MapLoops.v: site_table, or a hazardous construct (clock, randomness, goroutine, file system, '
-                                       '...) that is not on the allow-list of Model/DeterminismCheck.v; the replay search found no '
-                                       'history on which replicas disagree'),
+                           explanation='the tree contains a range over a map that the order-independence classifier of '
+                                       'Model/MapLoopsIR.v does not accept (and that is not an argued row), or a hazardous construct '
+                                       '(clock, randomness, goroutine, file system, ...) that is not on the allow-list of '
+                                       'Model/DeterminismCheck.v or not of the kind its allow-list reason is about; the replay search '
+                                       'found no history on which replicas disagree'),
                       name='replay_inventory.json', no_input=True)
     elif static_open:
-        pass  # a concrete disagreement was reported above
-    elif not run.proof_ok():
+        run.coverage['open_static_obligations'] = dict(unmatched_map_range_sites=inv['unmatched_sites'], unallowed_hazards=inv['unallowed_hazards'])
+    elif not run.proof_ok() and not any(v for v in run.violations):
         run.proof_violation()
-    for c in ml.get('unstable_samples') or []:   # the real function is not a function of its input: a concrete witness
-        small = min((x for x in [c]), key=lambda x: len(x.get('entries') or []))
-        run.violation(dict(kind='order-dependent-function', what=c['unstable'], input=small,
-                           explanation='the real function, called repeatedly in one process on the same validator set, gave different '
-                                       'results (Go map iteration order); rerun: harness/bin/c14 maploops'),
-                      name='replay_unstable.json')
-        break
     if ml.get('mismatches') and not ml.get('unstable'):
         run.violation(dict(kind='correspondence', what='a map-loop model of Model/MapLoops.v disagrees with the real function',
                            cases=ml['mismatch_samples'], broken='correspondence Model.MapLoops <-> real loops'),
                       name='replay_maploops.json', no_input=True)
-    run.coverage['claim'] = ('PARTIAL: order-independence of every map-ranging loop is proved; absence of other such places, the '
-                             'harmlessness of the other hazards (allow-list) and agreement of independent replays are checked, not proved')
+    if ml.get('error'):
+        run.violation(dict(kind='maploops-stage-failed', log=ml['error']), name='replay_maploops_error.json', no_input=True)
+    run.coverage['claim'] = ('PARTIAL: order-independence is proved for every range-over-map statement of the scope that the classifier '
+                             'accepts (8 of 11 on HEAD; 3 argued); absence of other such places, the harmlessness of the other hazards '
+                             '(allow-list) and agreement of independent replays are checked, not proved')
     return run.finish()
 
 
@@ -412,13 +434,16 @@ def check(run):
 
 def maploops_stage(run):
     out = os.path.join(run.work, 'maploops.jsonl')
-    rc, o = harness(['maploops', '-seed', run.seed, '-n', run.budget(300, 3000), '-out', out])
+    n = run.budget(300, 10000)
+    rc, o = harness(['maploops', '-seed', run.seed, '-n', n, '-out', out])
     if rc != 0 or not os.path.exists(out):
-        return dict(evaluations=0, error=o[-500:])
+        return dict(evaluations=0, error=o[-1500:] or 'maploops produced no output')
     cases = vlib.read_jsonl(out)
     if not cases:
-        return dict(evaluations=0)
-    return maploops_evaluate(run, cases)
+        return dict(evaluations=0, error='maploops produced no cases')
+    res = maploops_evaluate(run, cases)
+    res['n'] = n
+    return res
 
 
 def hb(h):
@@ -433,6 +458,9 @@ def mlcase_term(c):
     if c['kind'] == 'validators':
         return '(CValidators %s %d %s %s %d)' % (coq_list([hb(e) for e in c.get('entries') or []]), c.get('number', 0), hb(c['validator']),
                                                  coq_list([hb(e) for e in c.get('real_sorted') or []]), c['real_inturn'])
+    if c['kind'] == 'recents':
+        return '(CRecents %s %s %d %d %d)' % (coq_list(['(%d, %s)' % (int(h, 16), hb(v)) for h, v in c.get('recents') or []]),
+                                              hb(c['validator']), c.get('number', 0), c.get('limit', 0), c['real_recent'])
     if c['kind'] == 'macc':
         pairs = lambda ps: coq_list(['(%s, %s)' % (sb(k), 'true' if v == '1' else 'false') for k, v in ps])
         return '(CMacc %s %s %s %s)' % (
@@ -465,12 +493,38 @@ def maploops_evaluate(run, cases):
     sizes = Counter(min(len(c.get('entries') or []), 10) for c in cases if c['kind'] == 'validators')
     return dict(evaluations=len(cases), cases_by_kind=dict(kinds), validator_set_sizes={str(k): v for k, v in sorted(sizes.items())},
                 inturn_outcomes=dict(Counter({0: 'false', 1: 'true', 2: 'panic'}[c['real_inturn']] for c in cases if c['kind'] == 'validators')),
+                recents_verdicts=dict(Counter({0: 'accepted', 1: 'recently-signed', 2: 'panic', 3: 'other-error'}[c['real_recent']]
+                                              for c in cases if c['kind'] == 'recents')),
+                recents_with_two_entries_of_the_signer=sum(1 for c in cases if c['kind'] == 'recents' and
+                                                           sum(1 for _, v in c.get('recents') or [] if v == c['validator']) >= 2),
                 mismatches=len(mm), mismatch_samples=[dict(kind=k, case=cases[c]) for c, k in mm[:3]],
-                unstable=len(unstable), unstable_samples=unstable[:2])
+                unstable=len(unstable), unstable_samples=unstable[:2],
+                samples=[c for c in cases if c['kind'] == 'recents'][:1] + [c for c in cases if c['kind'] == 'validators' and len(c.get('entries') or []) > 2][:1])
 
 
 def replay(path):
     rp = json.load(open(path))
+    if rp.get('kind') == 'order-dependent-function' and rp.get('rerun'):
+        ok, out = vlib.build_harness(['c14'])
+        if not ok:
+            print('cannot build harness: ' + out[-500:])
+            return 2
+        work = os.path.join(vlib.ROOT, 'work', 'C14_replay')
+        os.makedirs(work, exist_ok=True)
+        outp = os.path.join(work, 'maploops.jsonl')
+        rr = rp['rerun']
+        rc, o = harness(['maploops', '-seed', rr.get('seed', 1), '-n', rr.get('n') or 300, '-out', outp])
+        if rc != 0:
+            print('maploops failed: ' + o[-500:])
+            return 2
+        bad = [c for c in vlib.read_jsonl(outp) if c.get('unstable')]
+        for c in bad[:5]:
+            print('unstable: %s  input=%s' % (c['unstable'], json.dumps({k: v for k, v in c.items() if k != 'unstable'})[:400]))
+        if bad:
+            print('VIOLATION property=C14 replay=%s' % path)
+            return 1
+        print('replay passes on the current tree: every real map-ranging function gave one result per input')
+        return 0
     if 'history' not in rp:
         print('no history in the replay file (%s): static obligation — rebuild with: ./check C14 quick' % rp.get('kind'))
         return 2
